@@ -2,8 +2,10 @@ package main
 
 import (
 	"bytes"
+	"encoding/json"
 	"fmt"
 	"go/ast"
+	"go/parser"
 	"go/printer"
 	"go/token"
 	"go/types"
@@ -147,8 +149,126 @@ func restoreParamOrder(c *Ctx, known map[string]bool) (out map[string][]byte, no
 			}
 		}
 	}
-	if len(targets) == 0 {
+	// reviewed function *types* whose parameter list is permuted the same way: values of such a type may be permuted
+	// functions, and calls through the type are rewritten like direct calls
+	type typeTarget struct {
+		obj   *types.TypeName
+		spec  *ast.TypeSpec
+		toOld []int
+	}
+	typeTargets := map[*types.TypeName]*typeTarget{}
+	if kb, err := os.ReadFile(knownIdentsPath()); err == nil {
+		var kid map[string]knownIdent
+		if json.Unmarshal(kb, &kid) == nil {
+			for _, p := range c.Pkgs {
+				if !inMod(p.PkgPath) || p.TypesInfo == nil {
+					continue
+				}
+				for _, f := range p.Syntax {
+					rel, err := filepath.Rel(c.Cfg.Dir, filepath.Dir(c.Fset.Position(f.Pos()).Filename))
+					if err != nil || strings.HasPrefix(rel, "..") {
+						continue
+					}
+					for _, d := range f.Decls {
+						gd, ok := d.(*ast.GenDecl)
+						if !ok || gd.Tok != token.TYPE {
+							continue
+						}
+						for _, sp := range gd.Specs {
+							ts := sp.(*ast.TypeSpec)
+							ft, ok := ts.Type.(*ast.FuncType)
+							if !ok || ft.Params == nil {
+								continue
+							}
+							ki, has := kid[rel+"|"+ts.Name.Name]
+							if !has || ki.Kind != "type" || !strings.HasPrefix(ki.Text, "func(") {
+								continue
+							}
+							oe, err := parser.ParseExpr(ki.Text)
+							if err != nil {
+								continue
+							}
+							oft, ok := oe.(*ast.FuncType)
+							if !ok || oft.Params == nil {
+								continue
+							}
+							flatTypes := func(fl *ast.FieldList) []string {
+								var out []string
+								if fl == nil {
+									return nil
+								}
+								for _, x := range fl.List {
+									var buf bytes.Buffer
+									printer.Fprint(&buf, token.NewFileSet(), x.Type)
+									n := len(x.Names)
+									if n == 0 {
+										n = 1
+									}
+									for i := 0; i < n; i++ {
+										out = append(out, buf.String())
+									}
+								}
+								return out
+							}
+							op, np := flatTypes(oft.Params), flatTypes(ft.Params)
+							if len(op) != len(np) || len(op) < 2 || strings.Join(op, ",") == strings.Join(np, ",") || strings.Join(flatTypes(oft.Results), ",") != strings.Join(flatTypes(ft.Results), ",") {
+								continue
+							}
+							so, sn := append([]string{}, op...), append([]string{}, np...)
+							sort.Strings(so)
+							sort.Strings(sn)
+							if strings.Join(so, "\x00") != strings.Join(sn, "\x00") {
+								continue
+							}
+							usedOld := make([]bool, len(op))
+							toOld := make([]int, len(np))
+							for i, t := range np {
+								toOld[i] = -1
+								for j, u := range op {
+									if !usedOld[j] && u == t {
+										usedOld[j], toOld[i] = true, j
+										break
+									}
+								}
+							}
+							if tn, _ := p.TypesInfo.Defs[ts.Name].(*types.TypeName); tn != nil {
+								typeTargets[tn] = &typeTarget{tn, ts, toOld}
+							}
+						}
+					}
+				}
+			}
+		}
+	}
+	if len(targets) == 0 && len(typeTargets) == 0 {
 		return nil, nil
+	}
+	sameOrder := func(a, b []int) bool {
+		if len(a) != len(b) {
+			return false
+		}
+		for i := range a {
+			if a[i] != b[i] {
+				return false
+			}
+		}
+		return true
+	}
+	// a permuted function may be used as a value when its signature is that of a permuted type (same permutation)
+	valueOK := func(fo *types.Func) bool {
+		t := targets[fo]
+		sig, _ := fo.Type().(*types.Signature)
+		if t == nil || sig == nil {
+			return false
+		}
+		for _, tt := range typeTargets {
+			if us, ok := tt.obj.Type().Underlying().(*types.Signature); ok && sameOrder(tt.toOld, t.toOld) {
+				if types.Identical(types.NewSignatureType(nil, nil, nil, sig.Params(), sig.Results(), sig.Variadic()), us) {
+					return true
+				}
+			}
+		}
+		return false
 	}
 	type fileEdits struct {
 		file  *ast.File
@@ -156,6 +276,7 @@ func restoreParamOrder(c *Ctx, known map[string]bool) (out map[string][]byte, no
 	}
 	perFile := map[string]*fileEdits{}
 	bad := map[*types.Func]string{}
+	typeBad := ""
 	text := func(n ast.Node) string {
 		var buf bytes.Buffer
 		printer.Fprint(&buf, c.Fset, n)
@@ -175,6 +296,21 @@ func restoreParamOrder(c *Ctx, known map[string]bool) (out map[string][]byte, no
 				if !ok {
 					return true
 				}
+				// a call through a value of a permuted function type
+				if nt, ok := p.TypesInfo.TypeOf(call.Fun).(*types.Named); ok {
+					if tt := typeTargets[nt.Obj()]; tt != nil {
+						if len(call.Args) != len(tt.toOld) || call.Ellipsis.IsValid() {
+							typeBad = "a call through the type does not pass one argument per parameter"
+							return true
+						}
+						args := make([]string, len(call.Args))
+						for i, a := range call.Args {
+							args[tt.toOld[i]] = text(a)
+						}
+						fe.edits = append(fe.edits, textEdit{tf.Offset(call.Args[0].Pos()), tf.Offset(call.Args[len(call.Args)-1].End()), strings.Join(args, ", ")})
+						return true
+					}
+				}
 				var id *ast.Ident
 				switch fn := ast.Unparen(call.Fun).(type) {
 				case *ast.Ident:
@@ -191,6 +327,7 @@ func restoreParamOrder(c *Ctx, known map[string]bool) (out map[string][]byte, no
 					return true
 				}
 				callIdents[id] = true
+				_ = t
 				if len(call.Args) != len(t.toOld) || call.Ellipsis.IsValid() {
 					bad[o] = "a call does not pass one argument per parameter"
 					return true
@@ -223,7 +360,9 @@ func restoreParamOrder(c *Ctx, known map[string]bool) (out map[string][]byte, no
 			// any other mention of the function (a value use) rules the rewrite out
 			for id, o := range p.TypesInfo.Uses {
 				if fo, ok := o.(*types.Func); ok && targets[fo] != nil && !callIdents[id] && id.Pos() >= f.Pos() && id.End() <= f.End() {
-					bad[fo] = "the function is also used as a value"
+					if !valueOK(fo) {
+						bad[fo] = "the function is also used as a value"
+					}
 				}
 			}
 			// the declaration itself
@@ -268,10 +407,49 @@ func restoreParamOrder(c *Ctx, known map[string]bool) (out map[string][]byte, no
 				}
 				fe.edits = append(fe.edits, textEdit{tf.Offset(fd.Type.Params.Opening) + 1, tf.Offset(fd.Type.Params.Closing), strings.Join(reord, ", ")})
 			}
+			for _, tt := range typeTargets {
+				if tt.spec.Pos() < f.Pos() || tt.spec.End() > f.End() {
+					continue
+				}
+				ft := tt.spec.Type.(*ast.FuncType)
+				type prm struct{ name, typ string }
+				var flat []prm
+				named := false
+				for _, fl := range ft.Params.List {
+					if len(fl.Names) == 0 {
+						flat = append(flat, prm{"", text(fl.Type)})
+						continue
+					}
+					named = true
+					for _, nm := range fl.Names {
+						flat = append(flat, prm{nm.Name, text(fl.Type)})
+					}
+				}
+				if len(flat) != len(tt.toOld) {
+					typeBad = "parameter list of the type not understood"
+					continue
+				}
+				reord := make([]string, len(flat))
+				for i, pr := range flat {
+					if named {
+						nm := pr.name
+						if nm == "" {
+							nm = "_"
+						}
+						reord[tt.toOld[i]] = nm + " " + pr.typ
+					} else {
+						reord[tt.toOld[i]] = pr.typ
+					}
+				}
+				fe.edits = append(fe.edits, textEdit{tf.Offset(ft.Params.Opening) + 1, tf.Offset(ft.Params.Closing), strings.Join(reord, ", ")})
+			}
 			if len(fe.edits) > 0 {
 				perFile[fname] = fe
 			}
 		}
+	}
+	if typeBad != "" {
+		return nil, append(notes, "a reviewed function type has its parameters permuted but the reviewed order is not restored: "+typeBad)
 	}
 	if len(bad) > 0 {
 		for o, why := range bad {
@@ -298,6 +476,9 @@ func restoreParamOrder(c *Ctx, known map[string]bool) (out map[string][]byte, no
 	}
 	for _, t := range targets {
 		notes = append(notes, fmt.Sprintf("parameters of %s are the reviewed ones in a different order; the reviewed order is restored in the declaration and at every call", t.key))
+	}
+	for _, tt := range typeTargets {
+		notes = append(notes, fmt.Sprintf("parameters of the function type %s are the reviewed ones in a different order; the reviewed order is restored in the declaration and at every call through it", tt.obj.Name()))
 	}
 	sort.Strings(notes)
 	return out, notes
